@@ -5,6 +5,7 @@ package engines
 import (
 	"encoding/json"
 	"fmt"
+	"io"
 	"os"
 	"os/exec"
 	"path/filepath"
@@ -75,6 +76,9 @@ func startProd(work string, sc *dscenario, front string, dev map[int]string, pau
 		"SIMULATE_ROUTER=" + filepath.Join(core.VerifDir, ".build", "verif") + " simstdio " + specFile}
 	p.cmd.Env = append(p.cmd.Env, sc.procEnv...)
 	p.cmd.Stdout = &p.stdout
+	if sc.procStdout != nil {
+		p.cmd.Stdout = sc.procStdout
+	}
 	p.cmd.Stderr = &p.stderr
 	p.cmd.SysProcAttr = &syscall.SysProcAttr{Setpgid: true}
 	if err := p.cmd.Start(); err != nil {
@@ -251,6 +255,30 @@ func changedOnlyIn(before, after string, files map[string]bool) bool {
 	return true
 }
 
+// fullPipe returns a pipe whose buffer is full: the first write of a
+// process that has w as standard output blocks until somebody reads.
+func fullPipe() (r, w *os.File, err error) {
+	r, w, err = os.Pipe()
+	if err != nil {
+		return
+	}
+	fd := int(w.Fd())
+	syscall.SetNonblock(fd, true)
+	buf := make([]byte, 4096)
+	for {
+		if _, e := syscall.Write(fd, buf); e != nil {
+			break
+		}
+	}
+	for {
+		if _, e := syscall.Write(fd, buf[:1]); e != nil {
+			break
+		}
+	}
+	syscall.SetNonblock(fd, false)
+	return
+}
+
 func fnvHash(b []byte) uint64 {
 	var h uint64 = 14695981039346656037
 	for _, c := range b {
@@ -317,6 +345,16 @@ func c12Process(ctx *core.Ctx, res *core.Result) {
 			jobs = append(jobs, job{h, k, false, false, false}, job{h, k, true, false, false}, job{h, k, false, true, false}, job{h, k, false, false, true})
 		}
 	}
+	// phase -1: the device session is over, the holder (do-approve compare
+	// with differences to report) is blocked printing its result lines to
+	// a standard output nobody reads (a pager, a stopped terminal); it
+	// still has to write history and status.
+	for _, dt := range []string{"ASA", "IOS"} {
+		if dt == "ASA" || ctx.Thorough() {
+			h := holderT{dt, "do-compare"}
+			jobs = append(jobs, job{h, -1, false, false, false}, job{h, -1, true, false, false}, job{h, -1, false, false, true})
+		}
+	}
 	sem := make(chan struct{}, 12)
 	type jr struct {
 		evals   int
@@ -325,6 +363,7 @@ func c12Process(ctx *core.Ctx, res *core.Result) {
 		// differences confined to the holder's open log files that a second
 		// contender run did not reproduce
 		lateWrites int
+		blocked    int // holders of phase -1 that were still blocked after all contenders
 	}
 	results := make(chan jr, len(jobs))
 	for ji, j := range jobs {
@@ -343,10 +382,33 @@ func c12Process(ctx *core.Ctx, res *core.Result) {
 			if j.gc {
 				hsc.procEnv = []string{"GOGC=1"}
 			}
-			holder := startProd(work, &hsc, j.h.front, nil, j.phase, "ctrl-holder", "")
+			var pipeR, pipeW *os.File
+			pauseAt := j.phase
+			if j.phase == -1 {
+				var err error
+				if pipeR, pipeW, err = fullPipe(); err != nil {
+					add("harness", "pipe: "+err.Error(), nil)
+					results <- out
+					return
+				}
+				defer pipeR.Close()
+				hsc.procStdout = pipeW
+				pauseAt = 0
+			}
+			holder := startProd(work, &hsc, j.h.front, nil, pauseAt, "ctrl-holder", "")
+			if pipeW != nil {
+				pipeW.Close()
+			}
 			ev := []string{fmt.Sprintf("holder=%s/%s paused at phase %d kill=%v GOGC=1:%v housekeeping:%v", j.h.devType, j.h.front, j.phase, j.kill, j.gc, j.house)}
 			reached := false
-			for end := time.Now().Add(90 * time.Second); time.Now().Before(end) && !holder.finished(); time.Sleep(3 * time.Millisecond) {
+			if j.phase == -1 {
+				ev[0] += " (phase -1: session over, holder blocked on its standard output)"
+				if waitSimEnd(holder.ctrl, 90*time.Second) {
+					time.Sleep(300 * time.Millisecond)
+					reached = !holder.finished()
+				}
+			}
+			for end := time.Now().Add(90 * time.Second); j.phase != -1 && time.Now().Before(end) && !holder.finished(); time.Sleep(3 * time.Millisecond) {
 				if _, err := os.Stat(filepath.Join(holder.ctrl, "paused")); err == nil {
 					reached = true
 					break
@@ -424,9 +486,15 @@ func c12Process(ctx *core.Ctx, res *core.Result) {
 				results <- out
 				return
 			}
+			if j.phase == -1 {
+				out.blocked++
+			}
 			if j.kill {
 				holder.kill9()
 			} else {
+				if pipeR != nil {
+					go io.Copy(io.Discard, pipeR)
+				}
 				os.WriteFile(filepath.Join(holder.ctrl, "resume"), []byte("go"), 0644)
 				if exit, to := holder.wait(120 * time.Second); to || exit != 0 {
 					add("holder-failed-after-release", fmt.Sprintf("holder exit=%d timeout=%v stderr=%s", exit, to, short(holder.stderr.String(), 300)), ev)
@@ -450,6 +518,7 @@ func c12Process(ctx *core.Ctx, res *core.Result) {
 		res.Count("process_level_contender_runs", int64(r.evals))
 		res.Count("process_level_phases_without_holder(run ended by itself)", int64(r.skipped))
 		res.Count("process_level_late_log_writes_of_the_paused_holder", int64(r.lateWrites))
+		res.Count("process_level_holders_blocked_on_stdout_after_the_session", int64(r.blocked))
 		for _, v := range r.viols {
 			res.AddViolation(v)
 		}
